@@ -17,11 +17,9 @@ c.ensures('value', 'result == int(s)')
 c = REG.contract('packet.Packet.encode', props=['C01', 'C02'])
 c.param('self', Ref('Packet')).param('b64', BOOL)
 c.returns(ANY)
-c.requires('api_payload(self.packet_type, self.data)', 'api-payload')
-c.requires('self.binary == is_bin(self.data)', 'binary-flag')
-c.requires('cache_ok(self.encode_cache, self.packet_type, self.data)', 'cache-inv')
+c.requires('packet_ok(self)', 'packet-ok')
 c.ensures('wire', 'result == wire(self.packet_type, self.data, b64)')
-c.ensures('cache-inv', 'cache_ok(self.encode_cache, self.packet_type, self.data)')
+c.ensures('cache-inv', 'packet_ok(self)')
 c.modifies('self.encode_cache')
 
 c = REG.contract('packet.Packet.decode', props=['C01', 'C02'])
@@ -48,9 +46,9 @@ c.ensures('cache-empty', 'self.encode_cache is None')
 c.ensures('plain-fields', 'implies(encoded_packet is None, self.packet_type == packet_type '
           'and self.data == data and self.binary == is_bin(data))')
 c.ensures('decoded-fields', 'implies(encoded_packet is not None, '
-          'self.binary == dec_binary(encoded_packet) and '
-          'self.packet_type == dec_type(encoded_packet) and '
-          'self.data == dec_data(encoded_packet))')
+          'packet_is(self, encoded_packet))')
+c.ensures('api-packets-ok', 'implies(encoded_packet is None and api_payload(packet_type, data), '
+          'packet_ok(self))')
 c.ensures('binary-only-message', 'implies(self.binary, self.packet_type == 4)')
 c.modifies('self.binary', 'self.packet_type', 'self.data', 'self.encode_cache')
 
